@@ -65,43 +65,101 @@ func VH_C11_Session() {
 	vAssert(paired, "default version range did not lead to a key exchange")
 	sid0 := s.srv.sid
 
-	// second Accept / Dial while the first connection is open
-	if !eager {
+	// second Accept / Dial while the first connection is open - or, third
+	// variant, only after one side has closed it (between the two closes)
+	late := !eager && vBool("late_reentry")
+	if !eager && !late {
 		again()
 	}
-	select {
-	case <-acc:
-		vAssert(false, "Accept handed out a second connection while the previous one is still open")
-		return
-	case <-dia:
-		vAssert(false, "Dial handed out a second connection while the previous one is still open")
-		return
-	case <-time.After(60 * time.Second):
-		vReach("exclusive")
+	if !late {
+		select {
+		case <-acc:
+			vAssert(false, "Accept handed out a second connection while the previous one is still open")
+			return
+		case <-dia:
+			vAssert(false, "Dial handed out a second connection while the previous one is still open")
+			return
+		case <-time.After(60 * time.Second):
+			vReach("exclusive")
+		}
 	}
 	// close the first connection
-	if vBool("client_closes") {
-		cli1.conn.Close()
-		srv1.conn.Close()
-	} else {
-		srv1.conn.Close()
-		cli1.conn.Close()
-	}
-	var a, d vConnResult
-	deadline := time.After(300 * time.Second)
-	for got := 0; got < 2; {
+	// One side closes first; the other side's connection object stays open
+	// until its owner closes it too (it only learns that the peer is gone):
+	// nothing may be handed out on that side in between.
+	between := func(first, second net.Conn, pending chan vConnResult, what string) bool {
+		first.Close()
+		// (short pauses, far below any handshake timeout: a party that dials
+		// for long while its peer still holds the old connection leaves stale
+		// handshake packets in the relay, which is C10's subject)
+		time.Sleep(200 * time.Millisecond)
+		if late {
+			again()
+			late = false
+			time.Sleep(200 * time.Millisecond)
+		}
 		select {
-		case a = <-acc:
-			got++
-		case d = <-dia:
-			got++
-		case <-deadline:
-			vAssert(false, "no fresh connection handed out after the previous one was closed")
+		case <-pending:
+			vAssert(false, what)
+			return false
+		default:
+		}
+		second.Close()
+		return true
+	}
+	if vBool("client_closes") {
+		if !between(cli1.conn, srv1.conn, acc, "Accept handed out a second connection after the peer closed but while the previous server connection is still open") {
+			return
+		}
+	} else {
+		if !between(srv1.conn, cli1.conn, dia, "Dial handed out a second connection after the peer closed but while the previous client connection is still open") {
 			return
 		}
 	}
-	vAssert(a.err == nil && d.err == nil, "Accept/Dial failed after the previous connection was closed")
-	if a.err != nil || d.err != nil {
+	// establish waits for the next Accept/Dial pair and runs the Noise
+	// handshakes. Handshake packets of a party that was already dialling while
+	// its peer still held the old connection may be left over in the relay and
+	// tear the first attempt down visibly (C10); like gRPC, the parties then
+	// close and try again: a working connection within three attempts.
+	var a, d vConnResult
+	var cn net.Conn
+	var sr vConnResult
+	establish := func(what string) bool {
+		for attempt := 0; attempt < vParam("attempts", 1); attempt++ {
+			deadline := time.After(300 * time.Second)
+			for got := 0; got < 2; {
+				select {
+				case a = <-acc:
+					got++
+				case d = <-dia:
+					got++
+				case <-deadline:
+					vAssert(false, "no fresh connection handed out after the "+what+" one was closed")
+					return false
+				}
+			}
+			vAssert(a.err == nil && d.err == nil, "Accept/Dial failed after the "+what+" connection was closed")
+			if a.err != nil || d.err != nil {
+				return false
+			}
+			hs := make(chan vConnResult, 1)
+			ac := a.conn
+			go func() { nc, _, err := s.srvNoise.ServerHandshake(ac); hs <- vConnResult{nc, err} }()
+			nc, _, err := s.cliNoise.ClientHandshake(s.ctx, "", d.conn)
+			cn = nc
+			sr = <-hs
+			if err == nil && sr.err == nil {
+				return true
+			}
+			vReach("attempt-retried")
+			d.conn.Close()
+			a.conn.Close()
+			again()
+		}
+		vAssert(false, "no working connection after the "+what+" one was closed")
+		return false
+	}
+	if !establish("previous") {
 		return
 	}
 	vReach("reconnected")
@@ -109,17 +167,6 @@ func VH_C11_Session() {
 	vAssert(!vIdealEq(s.srv.sid[:], sid0[:]) && !vIdealEq(s.cli.sid[:], sid0[:]), "parties did not leave the passphrase rendezvous after pairing")
 	vAssert(vIdealEq(s.srv.sid[:], s.cli.sid[:]), "parties moved to different rendezvous points")
 	vAssert(s.srvData.HandshakePattern().Name == KK && s.cliData.HandshakePattern().Name == KK, "parties do not use the key-based pattern after pairing")
-	// handshake and data on the fresh connection
-	hs := make(chan vConnResult, 2)
-	go func() { nc, _, err := s.srvNoise.ServerHandshake(a.conn); hs <- vConnResult{nc, err} }()
-	var cn net.Conn
-	nc, _, err := s.cliNoise.ClientHandshake(s.ctx, "", d.conn)
-	cn = nc
-	sr := <-hs
-	vAssert(err == nil && sr.err == nil, "key-based handshake on the fresh connection failed")
-	if err != nil || sr.err != nil {
-		return
-	}
 	msg := vBytes("msg", 2)
 	go func() { cn.Write(msg) }()
 	buf := make([]byte, 4)
@@ -156,37 +203,18 @@ func VH_C11_Session() {
 	case <-time.After(20 * time.Second):
 	}
 	if vBool("client_closes_2") {
-		cn.Close()
-		sr.conn.Close()
+		if !between(cn, sr.conn, acc, "Accept handed out a further connection after the peer closed but while the second server connection is still open") {
+			return
+		}
 	} else {
-		sr.conn.Close()
-		cn.Close()
-	}
-	deadline = time.After(300 * time.Second)
-	for got := 0; got < 2; {
-		select {
-		case a = <-acc:
-			got++
-		case d = <-dia:
-			got++
-		case <-deadline:
-			vAssert(false, "no fresh connection handed out after the second one was closed")
+		if !between(sr.conn, cn, dia, "Dial handed out a further connection after the peer closed but while the second client connection is still open") {
 			return
 		}
 	}
-	vAssert(a.err == nil && d.err == nil, "Accept/Dial failed after the second connection was closed")
-	if a.err != nil || d.err != nil {
+	if !establish("second") {
 		return
 	}
 	vAssert(vIdealEq(s.srv.sid[:], sid1[:]) && vIdealEq(s.cli.sid[:], sid1[:]), "rendezvous changed again although the keys did not")
-	go func() { nc, _, err := s.srvNoise.ServerHandshake(a.conn); hs <- vConnResult{nc, err} }()
-	nc, _, err = s.cliNoise.ClientHandshake(s.ctx, "", d.conn)
-	cn = nc
-	sr = <-hs
-	vAssert(err == nil && sr.err == nil, "handshake on the refreshed connection failed")
-	if err != nil || sr.err != nil {
-		return
-	}
 	msg2 := vBytes("msg2", 2)
 	go func() { cn.Write(msg2) }()
 	n, err = sr.conn.Read(buf)
